@@ -35,7 +35,8 @@ def main():
     import c15
     import c19arith
     import srcfp
-    extra = [c15.build_translator, getattr(c19arith, "build_translator", None), srcfp.build_tool]
+    import coregen
+    extra = [c15.build_translator, getattr(c19arith, "build_translator", None), srcfp.build_tool, getattr(coregen, "build_translator", None)]
     for tool in [t for t in extra if t]:
         r = tool()
         ok, out = bool(r[0]), r[1]
